@@ -2,5 +2,9 @@
 // in order, despite failures). Everything lives in _test files because the real
 // replication.Manager / PipelineHandler are driven inside testing/synctest bubbles,
 // which need a *testing.T. Build and run through ./run.sh (it generates the -overlay
-// that swaps sync.Mutex in manager.go for a channel mutex, see verifsync.go.txt).
+// that swaps sync.Mutex in manager.go and drivers/batcher.go for a channel mutex, see
+// verifsync.go.txt). The batched scenarios put the real batching layer
+// (drivers.NewWithBatchingDriverFactory / drivers.Batcher) between the DriverFacade and
+// the gated recording exporter, so that one page reaches the exporter as several
+// independently acknowledged / failed sub-batches.
 package k5
